@@ -19,7 +19,7 @@ Import ListNotations.
 Local Open Scope Z_scope.
 
 Inductive tpl := TPipeline | TFanout | TMutex | TProdCons | TSelMain | TSelPriv | TClosure
-               | THostCall | TMulti | TSelSend | TSelSendX | TGoLit | TOps.
+               | THostCall | TMulti | TSelSend | TSelSendX | TGoLit | TOps | TOpsLazy.
 
 Record params := mkparams { p_tpl : tpl; p_n : nat; p_k : nat; p_a : Z; p_b : Z }.
 
@@ -105,6 +105,7 @@ Definition g_expected (p : params) : list Z :=
   | TSelSendX => g_selsendx n k a b
   | TGoLit => g_golit n k a b
   | TOps => g_ops n k a b
+  | TOpsLazy => g_ops n k a b
   end.
 
 (** * Y *)
@@ -170,11 +171,19 @@ Definition strict (p : params) (o : observed) (expected : list Z) : bool :=
   o_ok o && negb (o_race_select o) && negb (o_race_getfunc o) && negb (o_race_other o)
   && negb (o_crash_nilcall o) && list_z_eqb (o_out o) expected.
 
+(** an operand cell whose statement materialises a reflect type at run time ([itype.refType] fills its cache
+    without a lock when several goroutines execute a type-switch clause with an interface case for the first time) *)
+Definition lazy_type_cell (p : params) : bool := match p_tpl p with TOpsLazy => true | _ => false end.
+
 (** [v]: the select variant, [wb]: getFunc's write-back — both read from the source (Conc/Capture.v) *)
 Definition y_accepts (v : variant) (wb : bool) (p : params) (o : observed) : bool :=
   if literal_reevaluated p && wb then
     negb (o_race_select o) && negb (o_race_other o)
     && (o_crash_nilcall o || (o_ok o && golit_wellformed p (o_out o)))
+  else if lazy_type_cell p then
+    (* the output is right; a race report on the type cache (neither in _select nor in getFunc) may appear *)
+    o_ok o && negb (o_race_select o) && negb (o_race_getfunc o) && negb (o_crash_nilcall o)
+    && list_z_eqb (o_out o) (y_expected p)
   else match v, select_is_shared p with
        | Shared, true => o_ok o && negb (o_race_getfunc o) && negb (o_race_other o) && selpriv_wellformed p (o_out o)
        | _, _ => strict p o (y_expected p)
